@@ -16,6 +16,11 @@ Shapes
       exact zero test.  Aimed at: eliminants with spurious roots (conjugates), vanishing eliminants, vanishing
       leading coefficients, irrational roots of irrational-coefficient polynomials.
   H   hand-written boundary cases (also in corpus/C11.txt).
+  K   A = N y^k + sum V_j y^j with every V_j vanishing at the assignment: the specialisation (and the eliminant of the
+      algebraic coefficients) collapses to the single term c*y^k, whose only root is 0 (see shape_K).
+  U   factors a(x) y - b(x) whose parametric leading coefficient evaluates to exactly -1 / +1 under a rational assignment
+      (the linear special case of the univariate isolator; see shape_U).
+      (D, N, V, Z, A, C: see the functions.)
 """
 from fractions import Fraction
 
@@ -706,6 +711,344 @@ def shape_C(rng):
     return mk_case("iso", [x, y], A, [(x, tok)], extra + ["cls=C"]), "C"
 
 
+# ------------------------------------------------------------------ shape K: the specialisation collapses to c*y^k
+def _ratval(tok):
+    """exact value of a rational value token: z:n, q:a/b, d:a/k (= a / 2^k)"""
+    kind, body = tok.split(":")
+    if kind == "z":
+        return Fraction(int(body))
+    a, b = body.split("/")
+    return Fraction(int(a), int(b)) if kind == "q" else Fraction(int(a), 2 ** int(b))
+
+
+def _peval(p, env):
+    """exact value of a polynomial at rational values"""
+    tot = Fraction(0)
+    for m, c in p.items():
+        t = Fraction(c)
+        for v, e in m:
+            t *= env[v] ** e
+        tot += t
+    return tot
+
+
+def _upoly(v, coeffs):
+    """sum coeffs[i] * x_v^i"""
+    r = {}
+    for i, c in enumerate(coeffs):
+        r = padd(r, pscale(c, ppow(pvar(v), i) if i else pconst(1)))
+    return r
+
+
+# irrational values: token -> (coefficients of the polynomial that vanishes at ALL roots of the defining polynomial,
+#                              coefficients of a polynomial that vanishes at the value but not at every conjugate, or None)
+K_ALG = {
+    "r:-2,0,1:1": ([-2, 0, 1], None), "r:-2,0,1:0": ([-2, 0, 1], None),
+    "r:-3,0,1:1": ([-3, 0, 1], None), "r:-3,0,1:0": ([-3, 0, 1], None),
+    "r:-5,0,1:1": ([-5, 0, 1], None),
+    "r:-1,-1,1:1": ([-1, -1, 1], None), "r:-1,-1,1:0": ([-1, -1, 1], None),
+    "r:-2,0,0,1:0": ([-2, 0, 0, 1], None),
+    "r:1,-3,0,1:0": ([1, -3, 0, 1], None), "r:1,-3,0,1:2": ([1, -3, 0, 1], None),
+    "r:-2,0,0,0,1:1": ([-2, 0, 0, 0, 1], None),
+    "a:6,0,-5,0,1:5/2:3/1": ([6, 0, -5, 0, 1], [-2, 0, 1]),       # sqrt2 as a root of (x^2-2)(x^2-3)
+    "a:6,0,-5,0,1:13/3:15/3": ([6, 0, -5, 0, 1], [-3, 0, 1]),     # sqrt3 of the same polynomial
+    "a:2,0,-3,0,1:5/2:3/1": ([2, 0, -3, 0, 1], [-2, 0, 1]),       # sqrt2 of (x^2-1)(x^2-2)
+}
+K_ALG_QUADRATIC = ["r:-2,0,1:1", "r:-2,0,1:0", "r:-3,0,1:1", "r:-3,0,1:0", "r:-5,0,1:1", "r:-1,-1,1:1", "r:-1,-1,1:0"]
+K_RAT = ["z:0", "z:0", "z:0", "q:0/1", "d:0/0", "z:1", "z:-1", "z:2", "z:2", "z:-2", "z:3", "z:4", "z:-3", "d:1/1", "d:-3/1",
+         "d:5/2", "q:1/3", "q:-2/3", "q:5/7", "d:2/0", "q:3/1"]
+
+
+def _k_vanishers(rng, assign):
+    """polynomials in the assigned variables that vanish at the assignment (and, for irrational values, mostly at
+    every conjugate too, so that the eliminant collapses as well); returns (list, list of 'partial' ones)"""
+    full, part = [], []
+    rats = [(v, _ratval(t)) for v, t in assign if t[0] in "zqd"]
+    algs = [(v, t) for v, t in assign if t[0] in "ra"]
+    for v, c in rats:
+        X = pvar(v)
+        L = psub(pscale(c.denominator, X), pconst(c.numerator))                 # b x - a
+        full += [L, L, pscale(rng.choice([-1, 2, 3]), L), pmul(L, padd(X, pconst(rng.choice([1, -1, 2])))),
+                 pmul(L, padd(pscale(c.denominator, X), pconst(c.numerator)))]  # b^2 x^2 - a^2
+        if c == 0:
+            full += [pmul(X, X), ppow(X, 3)]
+        else:
+            full += [pmul(L, X), pmul(L, L)]
+    for v, t in algs:
+        m, pt = K_ALG[t]
+        M = _upoly(v, m)
+        full += [M, M, pscale(rng.choice([-1, 2]), M), pmul(M, pvar(v))]
+        if len(m) == 3:
+            full.append(pmul(M, padd(pvar(v), pconst(1))))
+        if pt is not None:
+            part += [_upoly(v, pt), pmul(_upoly(v, pt), pvar(v))]
+    # relations between two parameters
+    if len(rats) == 2:
+        (v0, c0), (v1, c1) = rats
+        X0, X1 = pvar(v0), pvar(v1)
+        if c0 == c1:
+            full += [psub(X0, X1), psub(X0, X1), psub(pmul(X0, X0), pmul(X1, X1)), psub(pmul(X0, X1), pmul(X1, X1))]
+        if c0 == -c1:
+            full += [padd(X0, X1), padd(X0, X1), padd(pmul(X0, X1), pmul(X1, X1))]
+        if c1 == c0 * c0:
+            full += [psub(pmul(X0, X0), X1), psub(pmul(X0, X0), X1)]
+        if c0.denominator == 1 and c1.denominator == 1:
+            full += [psub(pmul(X0, X1), pconst(int(c0 * c1)))]
+    if len(rats) == 1 and len(algs) == 1:
+        (v0, c0), (v1, t1) = rats[0], algs[0]
+        m, _ = K_ALG[t1]
+        X0, X1 = pvar(v0), pvar(v1)
+        L = psub(pscale(c0.denominator, X0), pconst(c0.numerator))
+        M = _upoly(v1, m)
+        full += [padd(L, M), pmul(L, X1), pmul(M, X0) if c0 != 0 else M, psub(M, L)]
+        if len(m) == 3 and m[1] == 0 and c0 == -m[0]:
+            full += [psub(pmul(X1, X1), X0)] * 3                                  # x1^2 - x0 at x0 = 2, x1 = sqrt2
+    return full, part
+
+
+def shape_K(rng):
+    """COLLAPSE to a single term: A = N y^k + sum_{j != k} V_j y^j where every V_j vanishes at the assignment (through
+    a rational value - 0, integers, dyadic and proper fractions -, an irrational value together with all its
+    conjugates, or a relation between two parameters: x0 = x1, x0 = -x1, x1 = x0^2, x1^2 = x0) and N does not, so the
+    specialised polynomial - and with irrational parameters the eliminant too - is c*y^k, k = 1 .. 5: the only root
+    is 0, of multiplicity k.  Terms above y^k have vanishing leading coefficients; the constant term is mostly
+    non-zero as a polynomial (otherwise y splits off as a factor of its own).  One or two parameters, i.e. 2-3
+    variables, rational, irrational or one of each; with two irrational parameters a tiny linear / quadratic factor
+    structure for the model.  Sometimes times a factor (y - c), c != 0, and sometimes one 'partial' vanisher (zero at
+    the value but not at a conjugate of a reducible defining polynomial: the eliminant then keeps other terms)."""
+    mode = rng.choice(["rat1", "rat1", "rat2", "rat2", "alg1", "alg1", "alg1", "mix", "mix", "alg2"])
+    idx = rng.sample(range(6), 3)
+    y = idx[2]
+    Y = pvar(y)
+    if mode == "rat1":
+        assign = [(idx[0], rng.choice(K_RAT))]
+    elif mode == "rat2":
+        t0 = rng.choice(K_RAT)
+        c0 = _ratval(t0)
+        k = rng.random()
+        if k < 0.3:
+            t1 = t0 if rng.random() < 0.5 or c0.denominator != 1 else rng.choice(["z:%d" % c0, "q:%d/1" % c0, "d:%d/0" % c0])
+        elif k < 0.45 and c0.denominator == 1:
+            t1 = "z:%d" % (-c0)
+        elif k < 0.6 and c0.denominator == 1:
+            t1 = "z:%d" % (c0 * c0)
+        else:
+            t1 = rng.choice(K_RAT)
+        assign = [(idx[0], t0), (idx[1], t1)]
+    elif mode == "alg1":
+        assign = [(idx[0], rng.choice(list(K_ALG)))]
+    elif mode == "mix":
+        t1 = rng.choice(list(K_ALG))
+        m = K_ALG[t1][0]
+        t0 = "z:%d" % (-m[0]) if (len(m) == 3 and m[1] == 0 and rng.random() < 0.4) else rng.choice(K_RAT)
+        assign = [(idx[0], t0), (idx[1], t1)]
+    else:
+        t0 = rng.choice(K_ALG_QUADRATIC)
+        t1 = t0 if rng.random() < 0.2 else rng.choice(K_ALG_QUADRATIC)
+        assign = [(idx[0], t0), (idx[1], t1)]
+    lows = [v for v, _ in assign]
+    full, part = _k_vanishers(rng, assign)
+    renv = {v: _ratval(t) for v, t in assign if t[0] in "zqd"}
+
+    def nonvanishing():
+        k = rng.random()
+        if k < 0.5:
+            return pconst(rng.choice([1, 1, -1, 2, -3, 5]))
+        v, t = rng.choice(assign)
+        if t[0] in "ra":
+            return rng.choice([pvar(v), pscale(-1, pvar(v)), padd(pmul(pvar(v), pvar(v)), pconst(1))])
+        for _ in range(8):
+            c = rng.choice([padd(pvar(v), pconst(rng.choice([1, -1, 2, 3]))), padd(pmul(pvar(v), pvar(v)), pconst(1)),
+                            psub(pscale(2, pvar(v)), pconst(1)), pvar(v)])
+            if _peval(c, renv) != 0:
+                return c
+        return pconst(1)
+
+    extra = []
+    if mode == "alg2":
+        # tiny structures only (exact arithmetic with two irrational parameters): N y - V  or  N y^2 + V1 y + V0
+        tiny = [p for p in full if len(p) <= 3]
+        (v0, t0), (v1, t1) = assign
+        M0, M1 = _upoly(v0, K_ALG[t0][0]), _upoly(v1, K_ALG[t1][0])
+        if len(padd(M0, M1)) <= 4:
+            tiny.append(padd(M0, M1))
+        N = rng.choice([pconst(1), pconst(-1), pconst(2), pvar(v0), pvar(v1), pmul(pvar(v0), pvar(v1))])
+        if rng.random() < 0.35:
+            V = rng.choice(tiny)
+            A = psub(pmul(N, Y), V)
+            extra = ["lc=1", "lin=%s;%s" % (ptext(N), ptext(V))]
+        else:
+            V0 = rng.choice(tiny)
+            V1 = rng.choice(tiny + [pconst(0), pconst(0)])
+            if rng.random() < 0.25:
+                # the linear term survives instead: V2 y^2 + N y + V0
+                A = padd(pmul(rng.choice(tiny), pmul(Y, Y)), padd(pmul(N, Y), V0))
+            else:
+                A = padd(pmul(N, pmul(Y, Y)), padd(pmul(V1, Y), V0))
+            extra = ["lc=1", "quad=" + ptext(A)]
+    else:
+        d = rng.choice([2, 2, 3, 3, 4, 5]) if mode in ("rat1", "rat2") else rng.choice([1, 2, 2, 3, 3, 4])
+        k = rng.choice([j for j in range(1, d + 1)] + [d, 2 if d >= 2 else 1])
+        A = pmul(nonvanishing(), ppow(Y, k))
+        used_part = False
+        for j in range(d + 1):
+            if j == k:
+                continue
+            r = rng.random()
+            if j == 0:
+                if r < 0.12:
+                    continue
+            elif r < 0.45 and not (j == d and d > k):
+                continue
+            if part and not used_part and rng.random() < 0.12:
+                V = rng.choice(part)
+                used_part = True
+            else:
+                V = rng.choice(full)
+            if rng.random() < 0.2:
+                V = pmul(V, pconst(rng.choice([-1, 2, -2])))
+            A = padd(A, pmul(V, ppow(Y, j)))
+        if pdeg(A, y) <= 2 and mode in ("alg1", "mix") and rng.random() < 0.5:
+            # the model's factor-structure method as a second opinion (a quadratic with discriminant 0, or linear)
+            cs = [{}, {}, {}]
+            for m_, c_ in A.items():
+                e = dict(m_).get(y, 0)
+                cs[e][tuple(f for f in m_ if f[0] != y)] = c_
+            extra = ["lc=1", "quad=" + ptext(A)] if pdeg(A, y) == 2 else ["lc=1", "lin=%s;%s" % (ptext(cs[1]), ptext(pscale(-1, cs[0])))]
+        elif rng.random() < 0.15:
+            A = pmul(A, psub(Y, pconst(rng.choice([1, -1, 2, -3]))))
+    order = lows[:]
+    rng.shuffle(order)
+    return mk_case("iso", order + [y], A, assign, extra + ["cls=K"]), "K"
+
+
+# ------------------------------------------------------------------ shape U: parametric leading coefficient = -1 / +1
+def shape_U(rng):
+    """A factor a(x) y - b(x), linear in y under a RATIONAL assignment, whose leading coefficient is a proper polynomial
+    in the parameters that evaluates (after the denominators are cleared) to exactly -1 - or +1, -2, 2, 3 as controls -
+    and b(x) != 0: the root b/a of the linear special case of the univariate isolator with a UNIT leading coefficient of
+    either sign (numeric leading coefficients are made positive by the square-free factorisation, so -1 has to come from
+    a parameter).  a = x - (c+1), c - 1 - x, x^2 - (c^2+1), x at c = -1, -1/2, -1/3, -1/4 (numerator -1), x0 - x1,
+    x0 + x1, x0 x1 of two parameters, ...; one to three such factors, also squared, times (y - c) / (y^2 + 1), or below
+    a y^2 / y^3 term whose coefficient vanishes at the assignment (the linear factor appears after the reductum)."""
+    idx = rng.sample(range(6), 3)
+    y = idx[2]
+    Y = pvar(y)
+    two = rng.random() < 0.4
+    ints = [-3, -2, -1, -1, 0, 1, 1, 2, 3, 4]
+    fr = ["d:-1/1", "q:-1/3", "d:-1/2", "d:1/1", "q:1/3", "q:-1/5"]
+    def tok(c):
+        return rng.choice(["z:%d" % c, "z:%d" % c, "q:%d/1" % c, "d:%d/0" % c])
+    if two:
+        c0 = rng.choice(ints)
+        k = rng.random()
+        if k < 0.3:
+            c1 = c0 + 1                      # x0 - x1 = -1
+        elif k < 0.5:
+            c1 = -1 - c0                     # x0 + x1 = -1
+        elif k < 0.65 and c0 in (1, -1):
+            c1 = -c0                         # x0 x1 = -1
+        else:
+            c1 = rng.choice(ints)
+        assign = [(idx[0], tok(c0)), (idx[1], tok(c1) if rng.random() < 0.8 else rng.choice(fr))]
+    else:
+        assign = [(idx[0], tok(rng.choice(ints)) if rng.random() < 0.7 else rng.choice(fr))]
+    env = {v: _ratval(t) for v, t in assign}
+    lows = [v for v, _ in assign]
+
+    def cleared_lc(a, b):
+        """leading coefficient of a y - b after substituting the values with one positive multiplier (prod d^deg)"""
+        f = psub(pmul(a, Y), b)
+        mult = Fraction(1)
+        for v in lows:
+            mult *= env[v].denominator ** pdeg(f, v)
+        return _peval(a, env) * mult
+
+    def unit_lc(target):
+        """a proper polynomial in the parameters with value `target` (up to the multiplier: checked by the caller)"""
+        v = rng.choice(lows)
+        c = env[v]
+        X = pvar(v)
+        cands = []
+        if c.denominator == 1:
+            ci = int(c)
+            cands += [padd(X, pconst(target - ci)), padd(pscale(-1, X), pconst(target + ci)),
+                      padd(pmul(X, X), pconst(target - ci * ci)), padd(pscale(2, X), pconst(target - 2 * ci))]
+            if ci == target:
+                cands += [X, X, ppow(X, 3)]
+            if ci == -target:
+                cands += [pscale(-1, X), pscale(-1, X)]
+        else:
+            if c.numerator == target:
+                cands += [X] * 3
+            if c.numerator == -target:
+                cands += [pscale(-1, X)] * 3
+        if len(lows) == 2:
+            X0, X1 = pvar(lows[0]), pvar(lows[1])
+            for q in (psub(X0, X1), psub(X1, X0), padd(X0, X1), pmul(X0, X1), pscale(-1, pmul(X0, X1)), pscale(-1, padd(X0, X1))):
+                if _peval(q, env) == target and all(e.denominator == 1 for e in env.values()):
+                    cands += [q, q, q]
+        return rng.choice(cands) if cands else None
+
+    def const_part():
+        k = rng.random()
+        if k < 0.6:
+            return pconst(rng.choice([3, -2, 5, 1, -1, 4, 7]))
+        v = rng.choice(lows)
+        return rng.choice([padd(pvar(v), pconst(rng.choice([5, 7, -6]))), padd(pmul(pvar(v), pvar(v)), pconst(3)),
+                           psub(pconst(9), pvar(v))])
+
+    # the square-free factorisation separates factors by MULTIPLICITY only: two such factors stay linear factors of
+    # their own when their multiplicities differ (1 and 2); with equal multiplicities they form one quadratic factor
+    nfac = rng.choice([1, 1, 1, 2, 2])
+    mults = [1] if nfac == 1 else rng.choice([[1, 2], [2, 1], [1, 2], [2, 1], [1, 1]])
+    if nfac == 1 and rng.random() < 0.15:
+        mults = [2]
+    A = pconst(1)
+    extra = ["lc=1"]
+    made = 0
+    for _ in range(40):
+        if made == nfac:
+            break
+        target = rng.choice([-1, -1, -1, -1, -1, -1, 1, 1, -2, 2])
+        a = unit_lc(target)
+        b = const_part()
+        if a is None or _peval(b, env) == 0 or not pvars(a):
+            continue
+        if abs(target) == 1 and abs(cleared_lc(a, b)) != 1 and rng.random() < 0.8:
+            continue
+        for _ in range(mults[made]):
+            A = pmul(A, psub(pmul(a, Y), b))
+            extra.append("lin=%s;%s" % (ptext(a), ptext(b)))
+        made += 1
+    if made == 0:
+        a, b = padd(pvar(lows[0]), pconst(-1 - int(env[lows[0]]) if env[lows[0]].denominator == 1 else 0)), pconst(3)
+        A = psub(pmul(a, Y), b)
+        extra.append("lin=%s;%s" % (ptext(a), ptext(b)))
+    k = rng.random()
+    if k < 0.08:
+        # (joins the factors of multiplicity 1: a control, the linear special case is then not reached for those)
+        c = pconst(rng.choice([1, -1, 2, 0, -4]))
+        A = pmul(A, psub(Y, c))
+        extra.append("lin=1;%s" % ptext(c))
+    elif k < 0.15:
+        q = padd(pmul(Y, Y), pconst(1))
+        m3 = 3 if pdeg(A, y) <= 2 else 1
+        for _ in range(m3):                       # (y^2+1)^3: a factor of its own; ^1: joins the simple factors
+            A = pmul(A, q)
+            extra.append("quad=" + ptext(q))
+    elif k < 0.4:
+        # a higher term whose coefficient vanishes at the assignment (no factor structure: the product is not a product any more)
+        v = rng.choice(lows)
+        c = env[v]
+        L = psub(pscale(c.denominator, pvar(v)), pconst(c.numerator))
+        A = padd(A, pmul(pmul(L, pconst(rng.choice([1, -1, 2]))), ppow(Y, pdeg(A, y) + rng.choice([1, 1, 2]))))
+        extra = []
+    order = lows[:]
+    rng.shuffle(order)
+    return mk_case("iso", order + [y], A, assign, extra + ["cls=U"]), "U"
+
+
 def small_enough_D(case):
     main = case.split(" | ")[0].split()
     terms = main[2].split("+")
@@ -772,6 +1115,14 @@ def gen_cases(rng, n, op="iso", light=False):
     LIGHT[0] = light
     try:
         while len(cases) < n:
+            # classes K and U (16 %, not in C12's light stream, which is left exactly as it was) are drawn first; the
+            # quick / thorough sizes were raised accordingly, so the other classes keep their shares AND their numbers
+            k0 = 1.0 if light else rng.random()
+            if k0 < 0.16:
+                c, _ = (shape_K if k0 < 0.09 else shape_U)(rng)
+                if len(c.split()[2].split("+")) <= (40 if k0 < 0.09 else 30):
+                    cases.append(op.strip() + c[3:])
+                continue
             k = rng.random()
             if k > 0.94:
                 c, _ = shape_Z(rng)
@@ -804,7 +1155,7 @@ def gen_cases(rng, n, op="iso", light=False):
 
 def generate(rng, tier, corpus_only=False):
     # the hand-written boundary cases HAND are in corpus/C11.txt, which every run executes first
-    n = 400 if tier == "quick" else 3600
+    n = 476 if tier == "quick" else 4285      # (400 / 3600 before classes K and U, 16 %, were added)
     # op isof: the per-factor root lists against the extracted assembly model (sort / de-duplicate / exit)
     return gen_cases(rng, n) + gen_cases(rng, n // 4, "isof")
 
@@ -831,6 +1182,10 @@ def tag(case):
         kind = "A"
     if " cls=C" in case:
         kind = "C"
+    if " cls=K" in case:
+        kind = "K"
+    if " cls=U" in case:
+        kind = "U"
     return "%s-%s-alg%d" % (main[0], kind, nalg)
 
 
